@@ -154,7 +154,8 @@ def run(ctx):
                "an empty PATH is treated as absent, a non-empty one is searched, an unset one is not (empty: %s, non-empty: %s, unset: %s)"
                % tuple([M.term_str(x)[:50] for x in v_] if v_ is not None else None for v_ in (empty, filled, unset)))
     # exec(): the two branches are selected by self.search_path
-    is_sp = lambda t: M.noref(t) == ("field", selfp, "search_path")
+    SPV = ("std::option::Option::<T>::as_deref", "std::option::Option::<T>::as_ref", "<std::ffi::OsString as std::ops::Deref>::deref")
+    is_sp = lambda t: M.noref(t) == ("field", selfp, "search_path") or M.noref(M.strip(t, also=SPV)) == ("field", selfp, "search_path")
     some_e = variant_edges(ex, T, is_sp, 1, [0, 1], "std::option::Option<")
     none_e = variant_edges(ex, T, is_sp, 0, [0, 1], "std::option::Option<")
     asm = ex.calls_to(lambda f: M.callee_str(f) == ae.path)
@@ -177,7 +178,7 @@ def run(ctx):
         ctx.ob("R15.3", "iterate-split_path(search_path)-in-order", okit, ex.loc(nxt[0][0]), "the loop iterates %s over %s (must be split_path(self.search_path) directly, no reordering adaptor)" % (names, M.term_str(src) if src else None))
     else:
         ctx.ob("R15.3", "loop-driver", False, ex.loc(0), "the PATH loop must be driven by one Iterator::next")
-    cmd_bytes = lambda t: M.noref(M.strip(t, also=("<std::ffi::OsStr as std::os::unix::ffi::OsStrExt>::as_bytes",))) == ("field", selfp, "cmd")
+    cmd_bytes = lambda t: M.noref(M.strip(t, also=("<std::ffi::OsStr as std::os::unix::ffi::OsStrExt>::as_bytes", "<std::ffi::OsString as std::ops::Deref>::deref", "std::ffi::OsString::as_os_str"))) == ("field", selfp, "cmd")
     for bb, t in asm:
         a = [T.operand(x) for x in t["args"]]
         comps = M.noref(a[1])
@@ -223,7 +224,8 @@ def run(ctx):
         okx = len(anx) == 1
         if okx:
             itx = M.noref(Ta.operand(anx[0][1]["args"][0]))
-            okx = itx[0] == "call" and itx[1].endswith("into_iter") and M.noref(itx[2][0]) == ("param", 2, ae.local_name(2))
+            # the slice itself, front to back: into_iter(components) or components.iter()
+            okx = itx[0] == "call" and (itx[1].endswith("into_iter") or itx[1].endswith("<impl [T]>::iter")) and M.noref(itx[2][0]) == ("param", 2, ae.local_name(2))
             aitem = ("call", M.callee_str(anx[0][1]["f"]), tuple(Ta.operand(x) for x in anx[0][1]["args"]), anx[0][0])
             okx = okx and src == M.noref(("field", ("downcast", aitem, "Some"), "0")) and M.noref(a[0]) == sto
         ctx.ob("R15.3", "assemble.components-in-slice-order", okx, ae.loc(ext[0][0]), "each component of the slice is appended, in order, to the storage")
@@ -231,7 +233,10 @@ def run(ctx):
         and all(dominated_by_blocks(ae, r, [pu[0][0]]) for r in ae.return_blocks())
     ctx.ob("R15.3", "assemble.nul-terminated", okn, ae.loc(pu[0][0] if pu else 0), "a single NUL is pushed after the loop on every path to return")
     r0 = M.noref(Ta.local(0))
-    ctx.ob("R15.3", "assemble.returns-storage", r0[0] == "call" and r0[1] == "std::vec::Vec::<T, A>::as_slice" and r0[2][0] == sto, ae.loc(0), "assemble_exe returns the storage's contents")
+    whole = (r0[0] == "call" and r0[1] == "std::vec::Vec::<T, A>::as_slice" and r0[2][0] == sto) or \
+        (r0[0] == "call" and "index" in r0[1].lower() and M.noref(r0[2][0]) == sto and r0[2][1][0] in ("agg", "const") and "RangeFull" in M.term_str(r0[2][1])) or \
+        (r0[0] == "call" and r0[1].endswith("Deref>::deref") and M.noref(r0[2][0]) == sto)
+    ctx.ob("R15.3", "assemble.returns-storage", whole, ae.loc(0), "assemble_exe returns the storage's contents (whole): %s" % M.term_str(r0)[:100])
 
     # ---- R15.4 the loop only ends when PATH is exhausted --------------------------------
     if loop and len(nxt) == 1:
@@ -288,4 +293,5 @@ def run(ctx):
     else:
         ctx.missing("R15.5", "split_path closure")
     r0 = M.Terms(sp).local(0)
-    ctx.ob("R15.5", "split_path=from_fn(tokeniser)", r0[0] == "call" and r0[1] == "std::iter::from_fn" and r0[2][0][0] == "agg" and r0[2][0][1] == ("closure", "posix::split_path::{closure#0}") and r0[2][0][2] == (("param", 1, sp.local_name(1)),), sp.loc(0), "split_path(path) = from_fn(tokeniser over path)")
+    ctx.ob("R15.5", "split_path=from_fn(tokeniser)", r0[0] == "call" and r0[1] == "std::iter::from_fn" and r0[2][0][0] == "agg" and r0[2][0][1] == ("closure", "posix::split_path::{closure#0}") and len(r0[2][0][2]) == 1 and
+           M.noref(M.strip(r0[2][0][2][0], also=("<std::ffi::OsStr as std::os::unix::ffi::OsStrExt>::as_bytes", "std::ffi::OsStr::as_encoded_bytes"))) == ("param", 1, sp.local_name(1)), sp.loc(0), "split_path(path) = from_fn(tokeniser over path)")
